@@ -136,12 +136,20 @@ M = [
  ('status-error-stores-2', 'src/ops/complete_status.rs', '    self.status.flag.store(-1, Ordering::Relaxed);', '    self.status.flag.store(2, Ordering::Relaxed);', 'C14', 'fire'),
  ('finalize-unsub-under-guard', 'src/ops/finalize.rs', '    self.subscription.unsubscribe();\n    if let Some(func) = self.func.rc_deref_mut().take() {\n      func()\n    }', '    let mut slot = self.func.rc_deref_mut();\n    self.subscription.unsubscribe();\n    if let Some(func) = slot.take() {\n      func()\n    }', 'C15', 'fire'),
  ('share-relock-before-replace', 'src/ops/ref_count.rs', '          let connected = InnerShareOp::Connected(subject.clone());\n          let connectable = std::mem::replace(&mut *inner, connected);', '          let connected = InnerShareOp::Connected(subject.clone());\n          drop(inner);\n          let mut inner = self.0.rc_deref_mut();\n          let connectable = std::mem::replace(&mut *inner, connected);', 'C10', 'fire'),
+ ('delay-at-rebuild-lossless', 'src/observable.rs', '      delay: at.saturating_duration_since(Instant::now()),', '      delay: { let d = at.saturating_duration_since(Instant::now()); Duration::new(d.as_secs(), d.subsec_nanos()) },', 'C07', 'silent', 'all'),
+ ('delay-at-whole-millis-all', 'src/observable.rs', '      delay: at.saturating_duration_since(Instant::now()),', '      delay: Duration::from_millis(at.saturating_duration_since(Instant::now()).as_millis() as u64),', 'C07', 'fire', 'all'),
+ # --- round 8 rules: H2 captures, S14 put-back, E2 loop exit, P-g, Z7
+ ('schedule-halved-delay', 'src/scheduler.rs', '      let fut = async move {\n        if let Some(dur) = delay {', '      let delay = delay.map(|d| d / 2);\n      let fut = async move {\n        if let Some(dur) = delay {', 'C19', 'fire'),
+ ('schedule-renamed-capture', 'src/scheduler.rs', '      let fut = async move {\n        if let Some(dur) = delay {\n          new_timer(dur).await;\n        }\n        task.await\n      };', '      let fut = async move {\n        match delay {\n          Some(dur) => new_timer(dur).await,\n          None => {}\n        }\n        task.await\n      };', 'C19', 'silent'),
+ ('from-iter-while-let', 'src/observable/from_iter.rs', '    for v in self.0.into_iter() {\n      if observer.is_finished() {\n        break;\n      }\n      observer.next(v);\n    }', '    let mut it = self.0.into_iter();\n    while let Some(v) = it.next() {\n      if observer.is_finished() {\n        break;\n      }\n      observer.next(v);\n    }', 'C16', 'silent'),
+ ('from-iter-continue', 'src/observable/from_iter.rs', '      if observer.is_finished() {\n        break;\n      }', '      if observer.is_finished() {\n        continue;\n      }', 'C16', 'fire'),
 ]
 ALL = ['C%02d' % i for i in range(1, 21)]
 
 
 def run(m):
-    name, file, old, new, prop, expect = m
+    name, file, old, new, prop, expect = m[:6]
+    every = len(m) > 6 and m[6] == 'all'      # replace every occurrence (both twins of a pair), not only the first
     base = tempfile.mkdtemp(prefix='rxmut-')
     d = os.path.join(base, name)
     os.makedirs(d)
@@ -153,7 +161,7 @@ def run(m):
     if old not in s:
         shutil.rmtree(base, ignore_errors=True)
         return name, 'SKIPPED (pattern not found in current tree)', True
-    open(p, 'w').write(s.replace(old, new, 1))
+    open(p, 'w').write(s.replace(old, new) if every else s.replace(old, new, 1))
     env = dict(os.environ, RXCHECK_REPO=d, CARGO_NET_OFFLINE='true')
     c = subprocess.run(['cargo', 'check', '--offline', '--lib', '-q'], cwd=d, env=dict(env, CARGO_TARGET_DIR=os.path.join(VERIF, '.scratch', 'target-mutcheck')), stdout=subprocess.PIPE, stderr=subprocess.STDOUT)
     if c.returncode != 0:
